@@ -81,9 +81,14 @@ class FnSpec:
     start_after: str | None = None     # translate only the statements after the one whose source contains this marker
     stop_before: str | None = None     # ... and before the one whose source contains this marker (a SEGMENT of the body)
     segment_outputs: list = field(default_factory=list)  # [(local, type)] the value of a segment: these locals at its end
+    segment_stmt: str | None = None    # a ONE-statement segment: the statement (anywhere in the body, also inside `with`
+                                       # blocks) whose source starts with this text, found exactly once
+    segment_inputs: list = field(default_factory=list)   # [(local, type)] locals the segment reads: parameters of the result
     skip_params: list = field(default_factory=list)  # Python parameters that are not passed (replaced by stmt shapes)
     extra_params: list = field(default_factory=list)  # [(coq name, type)] extra parameters introduced by shapes
     field_consts: dict = field(default_factory=dict)  # attr -> (Coq text, type): a field fixed by the class (see requires)
+    static: bool = False               # a @staticmethod: no `self` parameter
+    mutated_params: list = field(default_factory=list)  # list parameters the function updates in place: returned last
     theorem: str = ""                  # the equivalence theorem (in the client's equivalence file) about this function
 
 
@@ -99,6 +104,13 @@ class Unit:
     variables: list = field(default_factory=list)  # section variables EVERY generated function is abstracted over, used or
                                                    # not (Coq generalises a definition only over the variables it mentions:
                                                    # mentioning all keeps the signature independent of the body)
+    none_tests: dict = field(default_factory=dict)  # object type -> Coq predicate for `x is None`
+    list_views: list = field(default_factory=list)  # method names m such that <list>.m() is the list itself (parameters)
+    elem_views: list = field(default_factory=list)  # attribute names a such that <element>.a is the element itself (data)
+    elem_copy: list = field(default_factory=list)   # method names m such that <element of a zipped list>.m(e) overwrites that
+                                                    # element in place with e (copy_)
+    scalar_consts: dict | None = None              # when set: a float literal is a SCALAR of type 'S' (value -> Coq text)
+    mixed_ops: dict = field(default_factory=dict)  # (left type, op name, right type) -> (Coq function, result type)
     item_get: dict = field(default_factory=dict)   # (container type, key type) -> (Coq function, result type)
     item_set: dict = field(default_factory=dict)   # (container type, key type, value type) -> Coq function
 
@@ -243,6 +255,8 @@ class FnTranslator:
         self.draw_of = {}           # id(AST node of a draw) -> index of its parameter (a node translated twice,
                                     # e.g. in a duplicated continuation, is still ONE draw of the execution)
         self.in_loop = 0
+        self.elem_alias = {}        # loop variable of a zip loop -> (AST of the list it walks, name of the index variable)
+        self.loop_index = []        # Coq names of the index variables of the enclosing for loops (innermost last)
         self.no_hoist = 0
         self.fuel_var = "fuel"
         self.uses_fuel = False
@@ -260,6 +274,10 @@ class FnTranslator:
             return "Z"
         if t == "T":
             return self.car.T
+        if t == "S":
+            return "Sc"
+        if t == "str":
+            return "string"
         if t in ("bool", "unit", "nat"):
             return t
         if t == "numtype":
@@ -366,10 +384,17 @@ class FnTranslator:
             return k("true" if v else "false", "bool")
         if isinstance(v, int):
             return k(f"({v})%Z" if v < 0 else f"{v}%Z", "Z")
+        if isinstance(v, float) and self.unit.scalar_consts is not None:
+            for kk, c in self.unit.scalar_consts.items():
+                if kk == v:
+                    return k(c, "S")
+            self.bad(e, f"no scalar constant for the literal {v!r} in the client table")
         if isinstance(v, float):
             return k(self.const_T(v, e), "T")
         if v is None:
             return k("tt", "unit")
+        if isinstance(v, str) and v.isascii() and '"' not in v:
+            return k(f'"{v}"%string', "str")
         self.bad(e, f"literal of type {type(v).__name__} is outside the subset")
 
     def e_Name(self, e, env, k):
@@ -379,6 +404,9 @@ class FnTranslator:
         self.bad(e, f"name `{e.id}` is not a (definitely assigned) local, parameter or known function")
 
     def e_Attribute(self, e, env, k):
+        if e.attr in self.unit.elem_views and isinstance(e.value, ast.Name) and e.value.id in env \
+                and env[e.value.id][1] == "T":
+            return k(env[e.value.id][0], "T")
         if isinstance(e.value, ast.Name) and e.value.id == "self":
             key = "self." + e.attr
             if key in env:
@@ -408,6 +436,10 @@ class FnTranslator:
         if isinstance(op, ast.Mult) and lt == "Z" and isinstance(re_, ast.Constant) and isinstance(re_.value, float) \
                 and re_.value == 0.25:
             return k(lc, ("quarter",))
+        opn = {ast.Add: "add", ast.Sub: "sub", ast.Mult: "mul", ast.Div: "div"}.get(type(op))
+        if (lt, opn, rt) in self.unit.mixed_ops:
+            fn, res_t = self.unit.mixed_ops[(lt, opn, rt)]
+            return k(f"{fn} {par(lc)} {par(rc)}", res_t)
         lc, rc, t = self.unify_num(le, lc, lt, re_, rc, rt, node)
         if t == "Z":
             if isinstance(op, ast.Add):
@@ -457,6 +489,9 @@ class FnTranslator:
     def cmp1(self, op, le, lc, lt, re_, rc, rt, node):
         if isinstance(op, (ast.Is, ast.IsNot)):
             # `x is (not) None` on a value whose declared type is not optional
+            if isinstance(re_, ast.Constant) and re_.value is None and lt in self.unit.none_tests:
+                c = f"{self.unit.none_tests[lt]} {par(lc)}"
+                return c if isinstance(op, ast.Is) else f"negb ({c})"
             if isinstance(re_, ast.Constant) and re_.value is None and lt != "unit":
                 return "false" if isinstance(op, ast.Is) else "true"
             self.bad(node, "`is` / `is not` other than a comparison of a non-optional value with None")
@@ -520,6 +555,19 @@ class FnTranslator:
         return parts[0](env, first)
 
     def e_Compare(self, e, env, k):
+        if (len(e.ops) == 1 and isinstance(e.ops[0], (ast.In, ast.NotIn)) and isinstance(e.comparators[0], (ast.List, ast.Tuple))
+                and e.comparators[0].elts and all(isinstance(x, ast.Constant) and isinstance(x.value, str)
+                                                  for x in e.comparators[0].elts)):
+            # <string> in ["a", "b"] : membership in a literal list of strings
+            def member(c, t):
+                if t != "str":
+                    self.bad(e, f"membership test of a value of type {t} in a list of strings")
+                parts = [f'String.eqb {par(c)} "{x.value}"%string' for x in e.comparators[0].elts]
+                code = parts[0]
+                for q in parts[1:]:
+                    code = f"orb ({code}) ({q})"
+                return k(code if isinstance(e.ops[0], ast.In) else f"negb ({code})", "bool")
+            return self.expr(e.left, env, member)
         operands = [e.left] + list(e.comparators)
         if len(operands) == 2:
             return self.exprs(operands, env, lambda vals: k(
@@ -942,7 +990,20 @@ class FnTranslator:
                     env2, cb = self.bind_var(t.elts[1].id, env2, lt[1], s)
                     return let_(f"'({ca}, {cb})", Term(f"zlast2 {par(lc)}", False), self.block(rest, env2, ctx))
                 return self.expr(v.value, env, got)
-            self.bad(s, "tuple unpacking assignment (only `a, b = l[-2:]` is translated)")
+            if (isinstance(v, ast.Tuple) and len(v.elts) == len(t.elts) and all(isinstance(x, ast.Name) for x in t.elts)
+                    and len({x.id for x in t.elts}) == len(t.elts)):
+                # a, b = e1, e2 : all right-hand sides are evaluated first
+                def got_all(vals):
+                    env2 = env
+                    body_names = []
+                    for x, (c, ty) in zip(t.elts, vals):
+                        env2, cn = self.bind_var(x.id, env2, ty, s)
+                        env2 = self.set_owned(env2, x.id, False)
+                        body_names.append(cn)
+                    return let_("'(" + ", ".join(body_names) + ")", Term("(" + ", ".join(c for c, _ in vals) + ")", True),
+                                self.block(rest, env2, ctx))
+                return self.exprs(list(v.elts), env, got_all)
+            self.bad(s, "tuple unpacking assignment (only `a, b = l[-2:]` and `a, b = e1, e2` are translated)")
         return self.assign(t, s.value, s, rest, env, ctx)
 
     def s_AnnAssign(self, s, rest, env, ctx):
@@ -1065,15 +1126,49 @@ class FnTranslator:
             return let_(tuple_pat(names), if_(c, a, b), self.block(rest, env2, ctx))
         return self.expr(s.test, env, test)
 
+    def loop_return(self, s, ctx, state, st_val, chk):
+        """support for `return` inside a loop: the loop state gets one more component, None while the loop has not
+        returned, Some v once it has (the loop is then left); after the loop Some v returns v from the function.
+        Gives (has_ret, full(e2, r) -> state value, ret continuation for the loop body, name of the component)."""
+        has_ret = any(isinstance(n, ast.Return) for n in ast.walk(s))
+        if not has_ret:
+            return False, (lambda e2, r=None: st_val(e2)), None, None
+        if ctx.ret is None:
+            self.bad(s, "return inside a loop that is itself inside a construct without a return continuation")
+        self.ntmp += 1
+        rname = f"ret{self.ntmp}"
+        names = lambda e2: [e2[v][0] for v in state]
+        full = lambda e2, r="None": tuple_val(names(e2) + [r])
+
+        def ret(c, t, e2):
+            chk(e2)
+            want = self.spec.returns
+            if c is None:
+                if want is not None:
+                    self.bad(s, "a path returns nothing although the client declares a returned value")
+                c = "tt"
+            elif t != want:
+                self.bad(s, f"returns a value of type {t}, the client declares {want}")
+            return Term(f"inr {par(full(e2, 'Some ' + par(c)))}", True)
+        return True, full, ret, rname
+
+    def after_loop(self, has_ret, rname, names, loop, rest, env_after, ctx):
+        if not has_ret:
+            return let_(tuple_pat(names), loop, self.block(rest, env_after, ctx))
+        a = ctx.ret("v_ret" if self.spec.returns is not None else None, self.spec.returns, env_after)
+        b = self.block(rest, env_after, ctx)
+        if a.pure and b.pure:
+            m = Term(f"match {rname} with\n| Some v_ret => {par(a.code)}\n| None => {par(b.code)}\nend", True)
+        else:
+            m = Term(f"match {rname} with\n| Some v_ret => {par(mon(a))}\n| None => {par(mon(b))}\nend", False)
+        return let_(tuple_pat(names + [rname]), loop, m)
+
     def s_While(self, s, rest, env, ctx):
         if s.orelse:
             self.bad(s, "while ... else")
         if not self.spec.fuel:
             self.bad(s, "a while loop in a function declared without fuel")
         self.uses_fuel = True
-        for n in ast.walk(s):
-            if isinstance(n, ast.Return):
-                self.bad(n, "return inside a loop")
         may = self.may_assign(list(s.body))
         env = dict(env)
         env["#owned"] = self.owned(env) - self.plain_assigned(list(s.body))
@@ -1090,23 +1185,25 @@ class FnTranslator:
             lost = (self.owned(env) & set(state)) - self.owned(e2)
             if lost:
                 self.bad(s, f"`{sorted(lost)[0]}` is updated in place in the loop but becomes shared inside it")
-        loop_ctx = Ctx(ret=None,
-                       fall=lambda e2: (chk_state(e2), Term(f"inl {par(st_val(e2))}", True))[1],
-                       brk=lambda e2: (chk_state(e2), Term(f"inr {par(st_val(e2))}", True))[1],
-                       cont=lambda e2: (chk_state(e2), Term(f"inl {par(st_val(e2))}", True))[1])
+        has_ret, full, retk, rname = self.loop_return(s, ctx, state, st_val, chk_state)
+        loop_ctx = Ctx(ret=retk,
+                       fall=lambda e2: (chk_state(e2), Term(f"inl {par(full(e2))}", True))[1],
+                       brk=lambda e2: (chk_state(e2), Term(f"inr {par(full(e2))}", True))[1],
+                       cont=lambda e2: (chk_state(e2), Term(f"inl {par(full(e2))}", True))[1])
 
         def test(c, t):
             if t != "bool":
                 self.bad(s, "while on a non-boolean test")
             body = self.block(list(s.body), env, loop_ctx)
-            return if_(c, body, Term(f"inr {par(st_val(env))}", True))
+            return if_(c, body, Term(f"inr {par(full(env))}", True))
         self.in_loop += 1
         try:
             step = self.expr(s.test, env, test)
         finally:
             self.in_loop -= 1
-        loop = Term(f"while_loop {self.fuel_var} (fun {tuple_pat(names)} =>\n{indent(mon(step))})\n{par(st_val(env))}", False)
-        return let_(tuple_pat(names), loop, self.block(rest, env_after, ctx))
+        pat = tuple_pat(names + ([rname] if has_ret else []))
+        loop = Term(f"while_loop {self.fuel_var} (fun {pat} =>\n{indent(mon(step))})\n{par(full(env))}", False)
+        return self.after_loop(has_ret, rname, names, loop, rest, env_after, ctx)
 
     def s_For(self, s, rest, env, ctx):
         if s.orelse:
@@ -1132,12 +1229,106 @@ class FnTranslator:
                 body=pre + list(s.body), orelse=[]), s)
             ast.fix_missing_locations(new)
             return self.s_For(new, rest, env, ctx)
+        if (isinstance(it, ast.Call) and isinstance(it.func, ast.Name) and it.func.id == "zip" and len(it.args) == 2
+                and not it.keywords and isinstance(s.target, ast.Tuple) and len(s.target.elts) == 2
+                and all(isinstance(x, ast.Name) for x in s.target.elts)):
+            # for a, b in zip(LA, LB)  ==  for _i in range(min(len(LA), len(LB))): a = LA[_i]; b = LB[_i]
+            # LA / LB: list locals / fields, possibly seen through a list view (<net>.parameters()).  a and b are
+            # remembered as aliases of LA[_i] / LB[_i] so that an in-place overwrite of b updates LB[_i].
+            def base(x):
+                if (isinstance(x, ast.Call) and not x.args and not x.keywords and isinstance(x.func, ast.Attribute)
+                        and x.func.attr in self.unit.list_views):
+                    x = x.func.value
+                if isinstance(x, ast.Name):
+                    return x, x.id
+                if isinstance(x, ast.Attribute) and isinstance(x.value, ast.Name) and x.value.id == "self":
+                    return x, "self." + x.attr
+                self.bad(s, "zip over something that is not a named list")
+            (na, ka), (nb, kb) = base(it.args[0]), base(it.args[1])
+            for kx in (ka, kb):
+                if kx not in env or not is_list(env[kx][1]):
+                    self.bad(s, "zip over something that is not a list")
+            if ka == kb:
+                self.bad(s, "zip of a list with itself")
+            self.ntmp += 1
+            ivar = f"i{self.ntmp}_"
+            idx = lambda: ast.Name(id=ivar, ctx=ast.Load())
+            pre = [ast.Assign(targets=[ast.Name(id=s.target.elts[0].id, ctx=ast.Store())],
+                              value=ast.Subscript(value=copy.deepcopy(na), slice=idx(), ctx=ast.Load())),
+                   ast.Assign(targets=[ast.Name(id=s.target.elts[1].id, ctx=ast.Store())],
+                              value=ast.Subscript(value=copy.deepcopy(nb), slice=idx(), ctx=ast.Load()))]
+            aliases = {s.target.elts[0].id: na, s.target.elts[1].id: nb}
+            tr_self = self
+
+            def rewrite(stmts):
+                """<zip variable>[.data].copy_(E)  ->  L[_i] = E ; the variable must not be read afterwards (stale)"""
+                out = []
+                for j, st in enumerate(stmts):
+                    c = st.value if isinstance(st, ast.Expr) else None
+                    if (isinstance(c, ast.Call) and isinstance(c.func, ast.Attribute)
+                            and c.func.attr in tr_self.unit.elem_copy and len(c.args) == 1 and not c.keywords):
+                        tgt = c.func.value
+                        if isinstance(tgt, ast.Attribute) and tgt.attr in tr_self.unit.elem_views:
+                            tgt = tgt.value
+                        if not (isinstance(tgt, ast.Name) and tgt.id in aliases):
+                            tr_self.bad(st, "in-place overwrite of something that is not the element variable of the zip loop")
+                        for later in stmts[j + 1:]:
+                            for n in ast.walk(later):
+                                if isinstance(n, ast.Name) and n.id == tgt.id:
+                                    tr_self.bad(st, f"`{tgt.id}` is read again after it was overwritten in place")
+                        store = ast.Assign(targets=[ast.Subscript(value=copy.deepcopy(aliases[tgt.id]), slice=idx(),
+                                                                  ctx=ast.Store())], value=c.args[0])
+                        ast.copy_location(store, st)
+                        out.append(store)
+                    elif isinstance(st, ast.If):
+                        st2 = copy.copy(st)
+                        st2.body, st2.orelse = rewrite(list(st.body)), rewrite(list(st.orelse))
+                        out.append(st2)
+                    else:
+                        out.append(st)
+                return out
+            body2 = rewrite(list(s.body))
+            ln = lambda n: ast.Call(func=ast.Name(id="len", ctx=ast.Load()), args=[copy.deepcopy(n)], keywords=[])
+            new = ast.For(target=ast.Name(id=ivar, ctx=ast.Store()),
+                          iter=ast.Call(func=ast.Name(id="range", ctx=ast.Load()),
+                                        args=[ast.Call(func=ast.Name(id="min", ctx=ast.Load()), args=[ln(na), ln(nb)],
+                                                       keywords=[])], keywords=[]),
+                          body=pre + body2, orelse=[])
+            for nd in [new] + pre:
+                ast.copy_location(nd, s)
+            ast.fix_missing_locations(new)
+            saved = dict(self.elem_alias)
+            self.elem_alias[s.target.elts[0].id] = (na, ivar)
+            self.elem_alias[s.target.elts[1].id] = (nb, ivar)
+            try:
+                return self.s_For(new, rest, env, ctx)
+            finally:
+                self.elem_alias = saved
+        if isinstance(s.target, ast.Name) and (isinstance(it, ast.Name) or (
+                isinstance(it, ast.Attribute) and isinstance(it.value, ast.Name) and it.value.id == "self")):
+            # for x in L  ==  for _i in range(len(L)): x = L[_i]   (L a list local / field the body does not assign)
+            key = it.id if isinstance(it, ast.Name) else "self." + it.attr
+            if key not in env or not is_list(env[key][1]):
+                self.bad(s, "for loop over something that is not a list")
+            if key in self.may_assign(list(s.body)):
+                self.bad(s, "the sequence of a for loop is modified in the loop")
+            self.ntmp += 1
+            ivar = f"i{self.ntmp}_"
+            pre = [ast.copy_location(ast.Assign(targets=[ast.Name(id=s.target.id, ctx=ast.Store())],
+                                                value=ast.Subscript(value=copy.deepcopy(it),
+                                                                    slice=ast.Name(id=ivar, ctx=ast.Load()), ctx=ast.Load())), s)]
+            new = ast.copy_location(ast.For(
+                target=ast.Name(id=ivar, ctx=ast.Store()),
+                iter=ast.Call(func=ast.Name(id="range", ctx=ast.Load()),
+                              args=[ast.Call(func=ast.Name(id="len", ctx=ast.Load()), args=[copy.deepcopy(it)], keywords=[])],
+                              keywords=[]),
+                body=pre + list(s.body), orelse=[]), s)
+            ast.fix_missing_locations(new)
+            return self.s_For(new, rest, env, ctx)
         if not (isinstance(it, ast.Call) and isinstance(it.func, ast.Name) and it.func.id == "range"
                 and 1 <= len(it.args) <= 2 and not it.keywords and isinstance(s.target, ast.Name)):
-            self.bad(s, "for loop other than `for <name> in range(a[, b])` / `for <i>, <x> in enumerate(<list>)`")
-        for n in ast.walk(s):
-            if isinstance(n, ast.Return):
-                self.bad(n, "return inside a loop")
+            self.bad(s, "for loop other than `for <name> in range(a[, b])` / `for <i>, <x> in enumerate(<list>)` / "
+                        "`for <x> in <list>`")
         bounds = [self.pure_expr(a, env) for a in it.args]
         if any(t != "Z" for _, t in bounds):
             self.bad(s, "range() bound that is not an int")
@@ -1160,17 +1351,21 @@ class FnTranslator:
             for v in state:
                 if e2[v][1] != env[v][1]:
                     self.bad(s, f"loop variable `{v}` changes type inside the loop")
-        loop_ctx = Ctx(ret=None, fall=lambda e2: (chk_own(e2), Term(f"inl {par(st_val(e2))}", True))[1],
-                       brk=lambda e2: (chk_own(e2), Term(f"inr {par(st_val(e2))}", True))[1],
-                       cont=lambda e2: (chk_own(e2), Term(f"inl {par(st_val(e2))}", True))[1])
+        has_ret, full, retk, rname = self.loop_return(s, ctx, state, st_val, chk_own)
+        loop_ctx = Ctx(ret=retk, fall=lambda e2: (chk_own(e2), Term(f"inl {par(full(e2))}", True))[1],
+                       brk=lambda e2: (chk_own(e2), Term(f"inr {par(full(e2))}", True))[1],
+                       cont=lambda e2: (chk_own(e2), Term(f"inl {par(full(e2))}", True))[1])
         self.in_loop += 1
+        self.loop_index.append(ivar)
         try:
             body = self.block(list(s.body), env_in, loop_ctx)
         finally:
             self.in_loop -= 1
-        loop = Term(f"for_range {par(lo)} {par(hi)} (fun {ivar} {tuple_pat(names)} =>\n{indent(mon(body))})\n{par(st_val(env))}", False)
+            self.loop_index.pop()
+        pat = tuple_pat(names + ([rname] if has_ret else []))
+        loop = Term(f"for_range {par(lo)} {par(hi)} (fun {ivar} {pat} =>\n{indent(mon(body))})\n{par(full(env))}", False)
         env_after = {k2: v2 for k2, v2 in env.items() if k2 != s.target.id}
-        return let_(tuple_pat(names), loop, self.block(rest, env_after, ctx))
+        return self.after_loop(has_ret, rname, names, loop, rest, env_after, ctx)
 
     # ---- the whole function ----------------------------------------------------------------
     def translate(self, cur_section: str):
@@ -1180,12 +1375,16 @@ class FnTranslator:
         if a.vararg or a.kwarg or a.kwonlyargs or a.posonlyargs:
             self.bad(fdef, "*args / **kwargs / keyword-only parameters")
         pyparams = list(a.args)
-        if spec.cls is not None:
+        decos = [ast.unparse(d) for d in fdef.decorator_list]
+        if spec.cls is not None and not spec.static:
             if not pyparams or pyparams[0].arg != "self":
                 self.bad(fdef, "method without `self`")
             pyparams = pyparams[1:]
-        if fdef.decorator_list:
-            self.bad(fdef, "decorated function")
+        if ("staticmethod" in decos) != bool(spec.static):
+            self.bad(fdef, "the client table and the source disagree on @staticmethod")
+        for d in decos:
+            if d not in ("staticmethod", "torch.compiler.disable"):      # neither changes what the body computes
+                self.bad(fdef, f"decorator @{d}")
         defaults = [None] * (len(pyparams) - len(a.defaults)) + list(a.defaults)
         env = {}
         coq_params = []
@@ -1197,12 +1396,14 @@ class FnTranslator:
             env["self." + attr] = (code, t)
         sig_params = []
         for p, d in zip(pyparams, defaults):
-            if p.arg in spec.skip_params:
+            if spec.skip_params == "*" or p.arg in spec.skip_params:
                 continue
             t = self.ann_type(p.annotation, p.arg, p)
             env[p.arg] = ("v_" + p.arg, t)
             coq_params.append(("v_" + p.arg, t))
             dcode = None
+            if d is not None and isinstance(d, ast.Constant) and d.value is None:
+                d = None            # a None default: a translated caller has to pass the argument
             if d is not None:
                 if not (isinstance(d, ast.Constant) and isinstance(d.value, int) and not isinstance(d.value, bool) and t == "Z"):
                     self.bad(d, "default value other than an int literal")
@@ -1210,6 +1411,9 @@ class FnTranslator:
             sig_params.append((p.arg, t, dcode))
         for cn, t in spec.extra_params:
             coq_params.append((cn, t))
+        for v, t in spec.segment_inputs:
+            env[v] = ("v_" + v, t)
+            coq_params.append(("v_" + v, t))
         for i in range(spec.draws):
             coq_params.append((f"draw_{i}", "T"))
 
@@ -1229,9 +1433,24 @@ class FnTranslator:
             elif c is not None:
                 self.bad(fdef, "returns a value although the client declares none")
             comps += [e2["self." + w][0] for w in writes]
+            comps += [e2[m][0] for m in spec.mutated_params]
             return Term(tuple_val(comps), True)
 
         body = list(fdef.body)
+        if spec.segment_stmt is not None:
+            found = []
+
+            def search(stmts):
+                for st in stmts:
+                    if " ".join(ast.unparse(st).split()).startswith(spec.segment_stmt):
+                        found.append(st)
+                    elif isinstance(st, ast.With):
+                        search(st.body)
+            search(body)
+            if len(found) != 1:
+                self.bad(fdef, f"segment statement `{spec.segment_stmt}...` found {len(found)} times, expected once")
+            body = found
+            self.segment_span = (found[0].lineno, found[0].end_lineno)
         if spec.start_after is not None:
             idx = [i for i, st in enumerate(body) if spec.start_after in ast.unparse(st)]
             if len(idx) != 1:
@@ -1263,6 +1482,7 @@ class FnTranslator:
             recursive = any(isinstance(n, ast.Call) and isinstance(n.func, ast.Name) and n.func.id == fdef.name
                             for n in ast.walk(fdef))
         rtypes = ([spec.returns] if spec.returns is not None else []) + [dict(spec.fields)[w] for w in writes]
+        rtypes += [env[m][1] for m in spec.mutated_params]
         if spec.segment_outputs:
             rtypes = [t for _, t in spec.segment_outputs]
         rty = " * ".join(par(self.coq_type(t)) for t in rtypes) if len(rtypes) > 1 else \
@@ -1825,6 +2045,210 @@ CLIENTS["C15"] = Client(
                            (is_sp_getitem, sp_getitem)],
             stmt_shapes=[(first_item_stmt, first_item)],
             theorem="C15_translated_get_vect_dim_is_model")])])
+
+
+# ---- C13: AsyncPettingZooVecEnv._poll_pipe_envs --------------------------------------------------------
+PIPE_T = ("opaque", "Pipe")
+
+
+def is_perf_counter(e, env):
+    return isinstance(e, ast.Call) and ast.unparse(e) == "time.perf_counter()"
+
+
+def perf_counter(tr, e, env, k):
+    """time.perf_counter(): an abstract input.  The reading taken before the loop is the parameter clock_0, the reading
+    taken in iteration i of the (single, innermost) for loop is clock_loop[i]; one reading per place (two readings would
+    be two different times)."""
+    seen = tr.__dict__.setdefault("clock_nodes", {})
+    where = "loop" if tr.loop_index else "start"
+    if seen.setdefault(where, id(e)) != id(e):
+        tr.bad(e, "a second clock reading in the same place (each reading is a different time: not modelled)")
+    if len(tr.loop_index) > 1:
+        tr.bad(e, "clock reading inside nested loops")
+    if tr.loop_index:
+        return tr.hoist(e, f"zget clock_loop {tr.loop_index[-1]}", "T", k)
+    return k("clock_0", "T")
+
+
+def attr_of(typ, attr):
+    def m(e, env):
+        return (isinstance(e, ast.Attribute) and e.attr == attr and isinstance(e.value, ast.Name)
+                and e.value.id in env and env[e.value.id][1] == typ)
+    return m
+
+
+def attr_by(coq, result):
+    def h(tr, e, env, k):
+        return k(f"{coq} {env[e.value.id][0]}", result)
+    return h
+
+
+def is_pipe_poll(e, env):
+    return (isinstance(e, ast.Call) and isinstance(e.func, ast.Attribute) and e.func.attr == "poll" and len(e.args) == 1
+            and not e.keywords and isinstance(e.func.value, ast.Name) and e.func.value.id in env
+            and env[e.func.value.id][1] == PIPE_T)
+
+
+def pipe_poll(tr, e, env, k):
+    return tr.expr(e.args[0], env, lambda c, t: k(f"pipe_poll {env[e.func.value.id][0]} {par(c)}", "bool") if t == "T"
+                   else tr.bad(e, f"poll with a timeout of type {t}"))
+
+
+CLIENTS["C13"] = Client(
+    pid="C13",
+    imports="From Coq Require Import List ZArith Bool.\nImport ListNotations.\nFrom AgileV Require Import TR.PyLib.",
+    equiv="coq/gen/C13_equiv.v",
+    units=[Unit(
+        file="agilerl/vector/pz_async_vec_env.py", section="GenPoll",
+        context=("Context {Tm Pipe : Type}.\n"
+                 "Variables (tm_add tm_sub : Tm -> Tm -> Tm) (tm_ltb : Tm -> Tm -> bool) (tm_zero : Tm).  (* float seconds *)\n"
+                 "Variable pipe_none : Pipe -> bool.            (* pipe is None *)\n"
+                 "Variable pipe_closed : Pipe -> bool.          (* pipe.closed *)\n"
+                 "Variable pipe_poll : Pipe -> Tm -> bool.      (* pipe.poll(timeout) *)"),
+        carrier=Carrier(T="Tm", ops={"add": "tm_add", "sub": "tm_sub", "ltb": "tm_ltb"}, consts={0.0: "tm_zero"}),
+        variables=["tm_add", "tm_sub", "tm_ltb", "tm_zero", "pipe_none", "pipe_closed", "pipe_poll"],
+        none_tests={PIPE_T: "pipe_none"},
+        functions=[FnSpec(
+            cls="AsyncPettingZooVecEnv", name="_poll_pipe_envs", coq="poll_pipe_envs",
+            fields=[("parent_pipes", ("list", PIPE_T))], returns="bool", params={"timeout": "T"},
+            extra_params=[("clock_0", "T"), ("clock_loop", ("list", "T"))],
+            expr_matchers=[(is_perf_counter, perf_counter), (attr_of(PIPE_T, "closed"), attr_by("pipe_closed", "bool")),
+                           (is_pipe_poll, pipe_poll)],
+            stmt_shapes=[(stmt_like("self._assert_is_running()"), skip_stmt)],
+            theorem="C13_translated_poll_is_model")])])
+
+
+# ---- C14: DeterministicActor.rescale_action, StochasticActor.scale_action ------------------------------
+def is_isinf_any(e, env):
+    return (isinstance(e, ast.Call) and not e.args and isinstance(e.func, ast.Attribute) and e.func.attr == "any"
+            and isinstance(e.func.value, ast.Call) and not e.func.value.args
+            and isinstance(e.func.value.func, ast.Attribute) and e.func.value.func.attr == "isinf")
+
+
+def isinf_any(tr, e, env, k):
+    return tr.expr(e.func.value.func.value, env, lambda c, t: k(f"t_any_inf {par(c)}", "bool") if t == "T"
+                   else tr.bad(e, f".isinf().any() of a value of type {t}"))
+
+
+def is_isinstance_tensor(e, env):
+    return (isinstance(e, ast.Call) and ast.unparse(e.func) == "isinstance" and len(e.args) == 2
+            and ast.unparse(e.args[1]) == "torch.Tensor")
+
+
+def isinstance_tensor(tr, e, env, k):
+    return tr.expr(e.args[0], env, lambda c, t: k(f"is_tensor {par(c)}", "bool") if t == "T"
+                   else tr.bad(e, f"isinstance(_, torch.Tensor) of a value of type {t}"))
+
+
+def is_cpu_numpy(e, env):
+    return (isinstance(e, ast.Call) and not e.args and isinstance(e.func, ast.Attribute) and e.func.attr == "numpy"
+            and isinstance(e.func.value, ast.Call) and not e.func.value.args
+            and isinstance(e.func.value.func, ast.Attribute) and e.func.value.func.attr == "cpu")
+
+
+def cpu_numpy(tr, e, env, k):
+    return tr.expr(e.func.value.func.value, env, lambda c, t: k(f"to_numpy {par(c)}", "T") if t == "T"
+                   else tr.bad(e, f".cpu().numpy() of a value of type {t}"))
+
+
+C14_MIXED = {("T", "add", "T"): ("t_add", "T"), ("T", "sub", "T"): ("t_sub", "T"), ("T", "mul", "T"): ("t_mul", "T"),
+             ("T", "div", "S"): ("t_div_s", "T"), ("T", "sub", "S"): ("t_sub_s", "T"), ("T", "add", "S"): ("t_add_s", "T"),
+             ("S", "mul", "T"): ("s_mul_t", "T"), ("S", "sub", "S"): ("s_sub", "S")}
+C14_VARS = ["t_add", "t_sub", "t_mul", "t_div_s", "t_sub_s", "t_add_s", "s_mul_t", "s_sub", "s_m1", "s_0", "s_1", "s_half",
+            "t_any_inf", "is_tensor", "to_numpy"]
+
+CLIENTS["C14"] = Client(
+    pid="C14",
+    imports=("From Coq Require Import List ZArith Bool String.\nImport ListNotations.\n"
+             "From AgileV Require Import TR.PyLib."),
+    equiv="coq/gen/C14_equiv.v",
+    units=[Unit(
+        file="agilerl/networks/actors.py", section="GenActors",
+        context=("Context {Ten Sc : Type}.\n"
+                 "Variables (t_add t_sub t_mul : Ten -> Ten -> Ten).          (* element-wise tensor arithmetic *)\n"
+                 "Variables (t_div_s t_sub_s t_add_s : Ten -> Sc -> Ten).     (* tensor (op) python float *)\n"
+                 "Variable s_mul_t : Sc -> Ten -> Ten.                         (* python float * tensor *)\n"
+                 "Variable s_sub : Sc -> Sc -> Sc.                             (* python float - python float *)\n"
+                 "Variables (s_m1 s_0 s_1 s_half : Sc).                        (* the literals -1.0 0.0 1.0 0.5 *)\n"
+                 "Variable t_any_inf : Ten -> bool.                            (* t.isinf().any() *)\n"
+                 "Variable is_tensor : Ten -> bool.                            (* isinstance(t, torch.Tensor) *)\n"
+                 "Variable to_numpy : Ten -> Ten.                              (* t.cpu().numpy() *)"),
+        carrier=Carrier(T="Ten"), variables=C14_VARS, mixed_ops=C14_MIXED,
+        scalar_consts={-1.0: "s_m1", 0.0: "s_0", 1.0: "s_1", 0.5: "s_half"},
+        functions=[
+            FnSpec(cls="DeterministicActor", name="rescale_action", coq="DeterministicActor_rescale_action", static=True,
+                   returns="T", params={"action": "T", "low": "T", "high": "T", "output_activation": "str"},
+                   expr_matchers=[(is_isinf_any, isinf_any)],
+                   theorem="C14_translated_rescale_action_is_model"),
+            FnSpec(cls="StochasticActor", name="scale_action", coq="StochasticActor_scale_action",
+                   fields=[("action_low", "T"), ("action_high", "T")], returns="T", params={"action": "T"},
+                   expr_matchers=[(is_isinstance_tensor, isinstance_tensor), (is_cpu_numpy, cpu_numpy)],
+                   theorem="C14_translated_scale_action_is_model"),
+        ])])
+
+
+# ---- C08: soft_update of DQN / DDPG / TD3 ---------------------------------------------------------------
+C08_MIXED = {("S", "mul", "T"): ("s_mul_t", "T"), ("T", "add", "T"): ("t_add", "T"), ("S", "sub", "S"): ("s_sub", "S")}
+C08_CONTEXT = ("Context {Ten Sc : Type}.\n"
+               "Variable s_mul_t : Sc -> Ten -> Ten.      (* python float * tensor *)\n"
+               "Variable t_add : Ten -> Ten -> Ten.       (* tensor + tensor *)\n"
+               "Variable s_sub : Sc -> Sc -> Sc.          (* python float - python float *)\n"
+               "Variable s_1 : Sc.                        (* the literal 1.0 *)")
+PARAMS_T = ("list", "T")
+
+
+def c08_unit(section, file, functions):
+    return Unit(file=file, section=section, context=C08_CONTEXT, carrier=Carrier(T="Ten"),
+                variables=["s_mul_t", "t_add", "s_sub", "s_1"], mixed_ops=C08_MIXED, scalar_consts={1.0: "s_1"},
+                list_views=["parameters"], elem_views=["data"], elem_copy=["copy_"], functions=functions)
+
+
+CLIENTS["C08"] = Client(
+    pid="C08",
+    imports="From Coq Require Import List ZArith Bool.\nImport ListNotations.\nFrom AgileV Require Import TR.PyLib.",
+    equiv="coq/gen/C08_equiv.v",
+    units=[
+        c08_unit("GenSoftDQN", "agilerl/algorithms/dqn.py", [FnSpec(
+            cls="DQN", name="soft_update", coq="DQN_soft_update",
+            fields=[("tau", "S"), ("actor", PARAMS_T), ("actor_target", PARAMS_T)], writes=["actor_target"],
+            theorem="C08_translated_dqn_soft_update_is_model")]),
+        c08_unit("GenSoftDDPG", "agilerl/algorithms/ddpg.py", [FnSpec(
+            cls="DDPG", name="soft_update", coq="DDPG_soft_update", fields=[("tau", "S")],
+            params={"net": PARAMS_T, "target": PARAMS_T}, mutated_params=["target"],
+            theorem="C08_translated_ddpg_soft_update_is_model")]),
+        c08_unit("GenSoftTD3", "agilerl/algorithms/td3.py", [FnSpec(
+            cls="TD3", name="soft_update", coq="TD3_soft_update", fields=[("tau", "S")],
+            params={"net": PARAMS_T, "target": PARAMS_T}, mutated_params=["target"],
+            theorem="C08_translated_td3_soft_update_is_model")]),
+    ])
+
+
+# ---- C08: the Bellman target line of DQN.update / DDPG.learn / TD3.learn (one-statement segments) ------
+C08_Y_MIXED = {("T", "add", "T"): ("t_add", "T"), ("T", "mul", "T"): ("t_mul", "T"), ("S", "mul", "T"): ("s_mul_t", "T"),
+               ("T", "mul", "S"): ("t_mul_s", "T"), ("Z", "sub", "T"): ("z_sub_t", "T")}
+C08_Y_CONTEXT = ("Context {Ten Sc : Type}.\n"
+                 "Variables (t_add t_mul : Ten -> Ten -> Ten).   (* element-wise tensor arithmetic *)\n"
+                 "Variable s_mul_t : Sc -> Ten -> Ten.            (* python float * tensor *)\n"
+                 "Variable t_mul_s : Ten -> Sc -> Ten.            (* tensor * python float *)\n"
+                 "Variable z_sub_t : Z -> Ten -> Ten.             (* python int - tensor *)")
+
+
+def c08_y(section, file, cls, fn, coq, qname, thm):
+    return Unit(file=file, section=section, context=C08_Y_CONTEXT, carrier=Carrier(T="Ten"),
+                variables=["t_add", "t_mul", "s_mul_t", "t_mul_s", "z_sub_t"], mixed_ops=C08_Y_MIXED,
+                functions=[FnSpec(cls=cls, name=fn, coq=coq, fields=[("gamma", "S")], segment_stmt="y_j = rewards",
+                                  segment_inputs=[("rewards", "T"), (qname, "T"), ("dones", "T")],
+                                  segment_outputs=[("y_j", "T")], skip_params="*", theorem=thm)])
+
+
+CLIENTS["C08"].units += [
+    c08_y("GenYDQN", "agilerl/algorithms/dqn.py", "DQN", "update", "DQN_update_y", "q_target",
+          "C08_translated_dqn_target_is_model"),
+    c08_y("GenYDDPG", "agilerl/algorithms/ddpg.py", "DDPG", "learn", "DDPG_learn_y", "q_value_next_state",
+          "C08_translated_ddpg_target_is_model"),
+    c08_y("GenYTD3", "agilerl/algorithms/td3.py", "TD3", "learn", "TD3_learn_y", "q_value_next_state",
+          "C08_translated_td3_target_is_model"),
+]
 
 
 def translate_pid(pid: str, repo: Path):
